@@ -198,6 +198,9 @@ def data_on_all_targets():
         for op in ops:
             for a in args:
                 yield {'k': 'stmt', 'cpu': cpu, 'op': op, 'args': [a] if a else [], 'lab': 1, 'close': 0, 'v': 'plain'}
+            # many arguments in one statement (the code buffer of a line starts out with 256 bytes), under AddressSanitizer
+            for a in (','.join(['1'] * 300), ','.join(['"abcdefgh"'] * 80), ','.join(['1.5'] * 150)):
+                yield {'k': 'stmt', 'cpu': cpu, 'op': op, 'args': [a], 'lab': 0, 'close': 0, 'v': 'asan'}
 
 
 def corpus_faults():
